@@ -58,6 +58,9 @@ RULES = [
  ("C15", "C15|crash|enc_send", "repeated sessions in one process: SIGILL/abort inside svt_av1_enc_send_picture"),
  ("C15", "C15|crash|enc_get_packet", "repeated sessions in one process: SIGILL/abort inside svt_av1_enc_get_packet"),
  ("C27", "C27|output-differs|*OVL*", "enable_overlays=1: output differs between call pacings"),
+ ("C17", "C17|crash|*", "two or more encoder instances with overlapping lifetimes in one process crash: svt_av1_enc_init of one instance rebuilds process-global tables (block geometry, RTCD pointers, lp_group/affinity) under the running instance, and deinit_handle of one frees globals the other still uses"),
+ ("C17", "C17|output-differs|enc|*sbsize*", "concurrent encoders with different superblock sizes: the block-geometry tables are process-global and rebuilt for the last initialised instance, changing the other instance's output"),
+ ("C17", "C17|output-differs|enc|*cpuflags*", "concurrent encoders with different use_cpu_flags: the RTCD function table is process-global, the last initialised instance's ISA level is used by both"),
  ("C14", "C14|livelock|dec_frame*", "svt_av1_dec_frame on garbage input spins without returning (parse loop does not consume input)"),
 ]
 
@@ -89,6 +92,11 @@ def main():
             json.dump(dict(property=pid, case=ent['case'], violations=[dict(key=key, what=ent.get('what'))]), open(rp, 'w'), indent=1, sort_keys=True)
             kf['findings'].append(dict(property=pid, status='known', key=rule[1], what=rule[2], replay=os.path.relpath(rp, V), example=(ent.get('what') or '')[:300]))
             print('added', rule[1])
+    for r in RULES:     # rules whose key was not (re)collected this time are still listed (their replay is added when one is captured)
+        if r[1] not in have:
+            have.add(r[1])
+            kf['findings'].append(dict(property=r[0], status='known', key=r[1], what=r[2], replay=None))
+            print('added (no replay yet)', r[1])
     json.dump(kf, open(os.path.join(V, 'known_findings.json'), 'w'), indent=1)
     for u in unexplained:
         print('UNEXPLAINED', u)
